@@ -83,14 +83,34 @@ Proof.
 Qed.
 
 Theorem numeric_cells_compare_as_numbers bl s l o i j :
-  cell l i <> None -> cell l j <> None ->
+  floatable (nvalue bl s l (NHdr i)) = true -> floatable (nvalue bl s l (NHdr j)) = true ->
   beval clean bl s l (BCmp o (NHdr i) (NHdr j)) = cmp_num clean o (fst (neval bl s l (NHdr i))) (fst (neval bl s l (NHdr j))).
-Proof. intros Hi Hj. cbn [beval q_strcmp clean andb nvalue]. destruct (cell l i); [|contradiction]. destruct (cell l j); [|contradiction]. reflexivity. Qed.
+Proof.
+  intros Hi Hj. cbn [beval q_strcmp clean andb]. rewrite Hi, Hj. cbn [andb].
+  destruct (nvalue bl s l (NHdr i)); destruct (nvalue bl s l (NHdr j)); cbn in *; try discriminate; reflexivity.
+Qed.
+
+(** a cell that is not a number (empty, text) is compared as text *)
+Theorem nonnumeric_cells_compare_as_text bl s l o a c :
+  is_vnone (nvalue bl s l a) = false -> is_vnone (nvalue bl s l c) = false ->
+  floatable (nvalue bl s l a) && floatable (nvalue bl s l c) = false ->
+  beval clean bl s l (BCmp o a c) = cmp_str clean o (text_of bl s l a) (text_of bl s l c).
+Proof. intros Ha Hc Hf. cbn [beval q_strcmp clean andb]. rewrite Ha, Hc, Hf. reflexivity. Qed.
+
+(** == : equal as trimmed text, or equal as Python values; equals(): the function form (None only equals None, numbers as numbers, otherwise text) *)
+Theorem eqeq_meaning q bl s l a c :
+  beval q bl s l (BEqEq a c) = ustr_eqb (strip (str_val (nvalue bl s l a))) (strip (str_val (nvalue bl s l c))) || val_eqb (nvalue bl s l a) (nvalue bl s l c).
+Proof. reflexivity. Qed.
+Theorem equals_numbers q bl s l a c : floatable (nvalue bl s l a) = true -> floatable (nvalue bl s l c) = true ->
+  beval q bl s l (BEq a c) = (fst (neval bl s l a) =? fst (neval bl s l c)).
+Proof.
+  intros Ha Hc. cbn [beval]. destruct (nvalue bl s l a) eqn:Ea; destruct (nvalue bl s l c) eqn:Ec; cbn in *; try discriminate; rewrite ?Ha, ?Hc; reflexivity.
+Qed.
 
 (** a cell the record does not have is neither above nor below a value *)
 Theorem missing_cell_compares_false bl s l o i e : cell l i = None -> is_vnone (nvalue bl s l e) = false ->
   beval clean bl s l (BCmp o (NHdr i) e) = false /\ beval clean bl s l (BCmp o e (NHdr i)) = false.
-Proof. intros Hi He. cbn [beval q_strcmp clean andb nvalue]. rewrite Hi, He. split; reflexivity. Qed.
+Proof. intros Hi He. cbn [beval q_strcmp clean andb nvalue]. rewrite Hi. cbn [is_vnone xorb]. rewrite He. split; reflexivity. Qed.
 
 (** D1, D2, D4 witnesses *)
 Theorem lt_is_le_refuted : cmp_num (mkQ true false false) Lt 10 10 = true /\ cmp_num clean Lt 10 10 = false.
